@@ -120,6 +120,13 @@ func writeVal(b *strings.Builder, v reflect.Value) {
 			b.WriteByte(' ')
 			writeVal(b, v.Field(i))
 		}
+		// the embedded Tag marker field carries the type's annotation only: the codec never stores anything in it, so a
+		// value that comes back from Decode with one set is not the value that was encoded
+		for i := 0; i < t.NumField(); i++ {
+			if t.Field(i).Type == reflect.TypeOf(kmip.Tag(0)) && v.Field(i).Uint() != 0 {
+				fmt.Fprintf(b, " (TAG %x)", v.Field(i).Uint())
+			}
+		}
 		b.WriteByte(')')
 	case t.Kind() == reflect.Slice:
 		b.WriteString("(L")
